@@ -44,6 +44,7 @@ type step struct {
 	Group   string            `json:"group"`
 	ID      string            `json:"id"`
 	Reqs    []step            `json:"reqs"` // burst: requests sent at once, not awaited before the kill
+	Until   map[string]any    `json:"until"` // rows / received: repeat until this is there (or ms have passed); what is then seen is reported
 	Grow    int64             `json:"grow"` // burst: kill as soon as the database file has grown by this many bytes (0: after ms)
 }
 
@@ -316,7 +317,7 @@ func runScenario(idx int, sc *scenario, bin, dir string) *bytes.Buffer {
 			fmt.Fprintf(os.Stderr, "procx: %s: start: %v\n", sc.Sid, err)
 			continue
 		}
-		if srv.waitReady(5 * time.Second) {
+		if srv.waitReady(20 * time.Second) {
 			break
 		}
 		if srv.running() {
